@@ -82,6 +82,41 @@ volatile bool PPL::Watchdog::alarm_clock_running = false;
 // Whether we are changing data which are also changed by the signal handler.
 volatile bool PPL::Watchdog::in_critical_section = false;
 
+#ifdef PPL_VERIF_HOOKS
+namespace {
+
+int
+verif_real_getitimer(int which, struct itimerval* value) {
+  return getitimer(which, value);
+}
+
+int
+verif_real_setitimer(int which,
+                     const struct itimerval* value,
+                     struct itimerval* old_value) {
+  return setitimer(which, value, old_value);
+}
+
+int
+verif_real_sigaction(int signum,
+                     const struct sigaction* act,
+                     struct sigaction* old_action) {
+  return sigaction(signum, act, old_action);
+}
+
+} // namespace
+
+int (*PPL::Verif_Hooks::getitimer_p)(int, struct itimerval*)
+  = &verif_real_getitimer;
+int (*PPL::Verif_Hooks::setitimer_p)(int, const struct itimerval*,
+                                     struct itimerval*)
+  = &verif_real_setitimer;
+int (*PPL::Verif_Hooks::sigaction_p)(int, const struct sigaction*,
+                                     struct sigaction*)
+  = &verif_real_sigaction;
+void (*PPL::Verif_Hooks::yield_p)(int) = 0;
+#endif // defined(PPL_VERIF_HOOKS)
+
 namespace {
 
 void
@@ -91,6 +126,12 @@ throw_syscall_error(const char* syscall_name) {
 
 void
 my_getitimer(int which, struct itimerval* value) {
+#ifdef PPL_VERIF_HOOKS
+  if ((*PPL::Verif_Hooks::getitimer_p)(which, value) != 0) {
+    throw_syscall_error("getitimer");
+  }
+  return;
+#endif
   if (getitimer(which, value) != 0) {
     throw_syscall_error("getitimer");
   }
@@ -99,6 +140,12 @@ my_getitimer(int which, struct itimerval* value) {
 void
 my_setitimer(int which,
              const struct itimerval* value, struct itimerval* old_value) {
+#ifdef PPL_VERIF_HOOKS
+  if ((*PPL::Verif_Hooks::setitimer_p)(which, value, old_value) != 0) {
+    throw_syscall_error("setitimer");
+  }
+  return;
+#endif
   if (setitimer(which, value, old_value) != 0) {
     throw_syscall_error("setitimer");
   }
@@ -107,6 +154,12 @@ my_setitimer(int which,
 void
 my_sigaction(int signum,
              const struct sigaction* act, struct sigaction* old_action) {
+#ifdef PPL_VERIF_HOOKS
+  if ((*PPL::Verif_Hooks::sigaction_p)(signum, act, old_action) != 0) {
+    throw_syscall_error("sigaction");
+  }
+  return;
+#endif
   if (sigaction(signum, act, old_action) != 0) {
     throw_syscall_error("sigaction");
   }
@@ -181,23 +234,33 @@ PPL::Watchdog::new_watchdog_event(long csecs,
   WD_Pending_List::iterator position;
   const Time deadline(csecs);
   if (!alarm_clock_running) {
+    PPL_VERIF_YIELD(20)
     position = pending.insert(deadline, handler, expired_flag);
+    PPL_VERIF_YIELD(21)
     time_so_far = Time(0);
+    PPL_VERIF_YIELD(22)
     set_timer(deadline);
+    PPL_VERIF_YIELD(23)
     alarm_clock_running = true;
   }
   else {
     Time time_to_shoot;
+    PPL_VERIF_YIELD(30)
     get_timer(time_to_shoot);
+    PPL_VERIF_YIELD(31)
     Time elapsed_time(last_time_requested);
+    PPL_VERIF_YIELD(32)
     elapsed_time -= time_to_shoot;
     Time current_time(time_so_far);
     current_time += elapsed_time;
     Time real_deadline(deadline);
     real_deadline += current_time;
+    PPL_VERIF_YIELD(33)
     position = pending.insert(real_deadline, handler, expired_flag);
     if (deadline < time_to_shoot) {
+      PPL_VERIF_YIELD(35)
       time_so_far = current_time;
+      PPL_VERIF_YIELD(36)
       set_timer(deadline);
     }
   }
@@ -216,20 +279,27 @@ PPL::Watchdog::remove_watchdog_event(WD_Pending_List::iterator position) {
       Time next_deadline(next->deadline());
       if (first_deadline != next_deadline) {
         Time time_to_shoot;
+        PPL_VERIF_YIELD(40)
         get_timer(time_to_shoot);
+        PPL_VERIF_YIELD(41)
         Time elapsed_time(last_time_requested);
+        PPL_VERIF_YIELD(42)
         elapsed_time -= time_to_shoot;
         time_so_far += elapsed_time;
+        PPL_VERIF_YIELD(43)
         next_deadline -= first_deadline;
         time_to_shoot += next_deadline;
         set_timer(time_to_shoot);
       }
     }
     else {
+      PPL_VERIF_YIELD(45)
       stop_timer();
+      PPL_VERIF_YIELD(46)
       alarm_clock_running = false;
     }
   }
+  PPL_VERIF_YIELD(44)
   pending.erase(position);
 }
 
